@@ -343,6 +343,9 @@ var _ b6.AnyCollection[int, b6.Geometry] = &areaPointCollection{}
 // Return a collection of the points of the given geometry.
 // Keys are ordered integers from 0, values are points.
 func points(context *api.Context, geometry b6.Geometry) (b6.Collection[int, b6.Geometry], error) {
+	if geometry == nil {
+		return b6.Collection[int, b6.Geometry]{}, fmt.Errorf("expected a geometry, found nothing")
+	}
 	switch geometry.GeometryType() {
 	case b6.GeometryTypePoint:
 		return b6.ArrayValuesCollection[b6.Geometry]([]b6.Geometry{geometry}).Collection(), nil
@@ -436,6 +439,9 @@ func samplePointsAlongPaths(context *api.Context, paths b6.Collection[b6.Feature
 func samplePoints(context *api.Context, path b6.Geometry, distanceMeters float64) (b6.Collection[int, b6.Geometry], error) {
 	if !(distanceMeters > 0.0) {
 		return b6.Collection[int, b6.Geometry]{}, fmt.Errorf("distance between points must be greater than 0, found %f", distanceMeters)
+	}
+	if path == nil {
+		return b6.Collection[int, b6.Geometry]{}, fmt.Errorf("expected a path, found nothing")
 	}
 	points := appendUnseenSampledPoints(path, distanceMeters, make(map[s2.Point]struct{}), make([]b6.Geometry, 0, 16))
 	return b6.ArrayValuesCollection[b6.Geometry](points).Collection(), nil
